@@ -254,6 +254,13 @@ func verifRun(c *mon.Case) *mon.Result {
 	if c.MaxExpr > 0 {
 		opts = append(opts, MaxExpressions(c.MaxExpr))
 	}
+{{if .HasState}}
+	if c.Init > 0 {
+		for k, v := range mon.InitialState(c.Init) {
+			opts = append(opts, InitState(k, v))
+		}
+	}
+{{end}}
 	dbgFile := ""
 	_ = dbgFile
 {{if not .Optimized}}
